@@ -245,7 +245,11 @@ def run_op(s, backend, op):
     # "a run that does not ask to continue": the flag is either passed as False or — every other such call — simply
     # left out (the documented default)
     if op["cont"] or (op["seed"] % 2 == 0):
-        kw["continue_from_backend"] = bool(op["cont"])
+        # the flag as callers write it: a bool, or the result of the usual resume idiom `backend.iteration > 0` — a
+        # numpy.bool_ when the iteration count is read from an HDF5 file — or an integer switch 0 / 1
+        how = (op["seed"] // 2) % 3
+        flag = bool(op["cont"])
+        kw["continue_from_backend"] = flag if how == 0 else (np.bool_(flag) if how == 1 else int(flag))
     try:
         with quiet():
             ret = s.mcmc_emcee(op["nw"], op["nburn"], op["nrun"], vec2kwargs(s, op["mean"]),
